@@ -660,10 +660,12 @@ impl InstrFormat for MsgHooks {
         }
     }
 
-    fn write_instr(&self, f: &mut BinWriter, _: &dyn Emitter, instr: &RawInstr) -> WriteResult {
-        f.write_i16(instr.time as _)?;
-        f.write_u8(instr.opcode as _)?;
-        f.write_u8(instr.args_blob.len() as _)?;  // this version writes argsize rather than instr size
+    fn write_instr(&self, f: &mut BinWriter, emitter: &dyn Emitter, instr: &RawInstr) -> WriteResult {
+        use crate::llir::instr_header_field as field;
+        f.write_i16(field(emitter, "time", instr.time as i64)?)?;
+        // (the opcode is a signed byte, sign-extended by the reader)
+        f.write_i8(field(emitter, "opcode", instr.opcode as i16 as i64)?)?;
+        f.write_u8(field(emitter, "argument size", instr.args_blob.len() as i64)?)?;  // this version writes argsize rather than instr size
         f.write_all(&instr.args_blob)?;
         Ok(())
     }
